@@ -13,34 +13,35 @@ Open Scope Z_scope.
 
 Fixpoint get_diff_old (fuel : nat) (c : config) (log : list entry) (vis : Z -> Z) (m : mgr) : mgr :=
   match fuel with
-  | O => {| mbox := mbox m; mtr := mtr m; moof := true |}
+  | O => set_oof m
   | S f =>
-    let m := clear_gaps (clear_gaps m 0) 1 in
+    let m := clear_gaps (clear_gaps (clear_gaps m 0) 1) SEQ in
     let reqp := bstate (mbox m 0) in
     let reqq := bstate (mbox m 1) in
     let pp := pend log 0 reqp (vis 0) in
     let qq := pend log 1 reqq (vis 1) in
     match pp ++ qq with
-    | [] => m
+    | [] => set_state m SEQ (vis (nseq c))
     | _ :: _ =>
       if (0 <? tl_thr c) && (vis 0 - reqp >? tl_thr c) then
         let m := emit m [Persist 0 (vis 0); TooLong 0] in
         get_diff_old f c log vis (set_state m 0 (vis 0))
       else
-        let '(cut, sliced) := slice_cut (slice_lim c) pp (vis 0) in
+        let '(cut, cutq, sliced) := slice_cut2 (slice_lim c) log vis reqp reqq in
         let pp' := pend log 0 reqp cut in
-        let others := filter (fun e => negb (is_msg e)) pp' ++ filter (fun e => negb (is_msg e)) qq in
-        let msgs := filter is_msg pp' ++ filter is_msg qq in
-        let m := fold_left (push_item c) (isort route_key others) m in     (* through the boxes *)
-        let m := emit m (delivers msgs ++ [Persist 0 cut; Persist 1 (vis 1)]) in
-        let m := set_state (set_state m 0 cut) 1 (vis 1) in
+        let qq' := pend log 1 reqq cutq in
+        let others := filter (fun e => negb (is_msg e)) pp' ++ filter (fun e => negb (is_msg e)) qq' in
+        let msgs := filter is_msg pp' ++ filter is_msg qq' in
+        let m := fold_left (push_item c log vis) (isort route_key others) m in     (* through the boxes *)
+        let m := emit m (delivers msgs ++ [Persist 0 cut; Persist 1 cutq]) in
+        let m := set_state (set_state (set_state m 0 cut) 1 cutq) SEQ (vis (nseq c)) in
         if sliced then get_diff_old f c log vis m else m
     end
   end.
 
 Fixpoint chan_diff_old (fuel : nat) (c : config) (log : list entry) (vis : Z -> Z) (s : Z) (m : mgr) : mgr :=
   match fuel with
-  | O => {| mbox := mbox m; mtr := mtr m; moof := true |}
+  | O => set_oof m
   | S f =>
     let m := clear_gaps m s in
     let req := bstate (mbox m s) in
@@ -57,18 +58,21 @@ Fixpoint chan_diff_old (fuel : nat) (c : config) (log : list entry) (vis : Z -> 
         let m := set_state m s cut in
         let m := if sliced then chan_diff_old f c log vis s m else m in
         (* the re-routed other updates come back after the position moved *)
-        fold_left (push_item c) (filter (fun e => negb (is_msg e)) pp') m
+        fold_left (push_item c log vis) (filter (fun e => negb (is_msg e)) pp') m
     end
   end.
 
 Definition mstep_old (c : config) (log : list entry) (m : mgr) (o : mop) : mgr :=
   match o with
-  | MPush _ ids => push c log m ids
+  | MPushC vis cid sq ids p =>
+    let '(m1, recover, sb) := pushc_apply c log vis m cid sq ids p in
+    let m2 := if recover then get_diff_old (fuel_of log) c log vis m1 else m1 in
+    match sb with Some b => set_box m2 SEQ b | None => m2 end
   | MTooLong vis | MTimerCommon vis => get_diff_old (fuel_of log) c log vis m
   | MChanTooLong vis s | MTimerChan vis s =>
-    if (2 <=? s) && (s <? nseq c) then chan_diff_old (fuel_of log) c log vis s m else m
+    if (2 <=? s) && (s <? nseq c) && mtracked m s then chan_diff_old (fuel_of log) c log vis s m else m
   | MStartup vis =>
-    fold_left (fun m s => chan_diff_old (fuel_of log) c log vis s m) (chan_seqs c)
+    fold_left (fun m s => chan_diff_old (fuel_of log) c log vis s m) (filter (tracked0 c) (chan_seqs c))
               (get_diff_old (fuel_of log) c log vis m)
   end.
 Definition mrun_old (c : config) (log : list entry) (ops : list mop) : mgr :=
